@@ -12,6 +12,7 @@ import Proofs.Fields
 import Proofs.Compose
 import Proofs.Pairing
 import Proofs.Translate
+import Proofs.Ties
 namespace Coma.Props
 open Coma Coma.Spec
 
@@ -30,13 +31,13 @@ theorem C04_confidence (P : Params) (C : ChainCfg) (ref qry : OMap) (peaks : Lis
 /-- every segment of a candidate — also after chaining and trimming — is a contiguous run of
     the position list of ONE of the seed peaks, carrying that peak: no label inside its span is
     left unaccounted for, none is counted twice (the position list contains every label of the
-    window exactly once: C12) -/
+    window exactly once: C12).  Holds for weakly ascending coordinates, i.e. also with coincident labels. -/
 theorem C04_accounted (P : Params) (C : ChainCfg) (hP : GoodParams P) (ref qry : OMap) (peaks : List Int)
-    (rev : Bool) (it : Int) (hr : StrictAscending ref.positions) (hq : StrictAscending qry.positions)
+    (rev : Bool) (it : Int) (hr : Ascending ref.positions) (hq : Ascending qry.positions)
     (row : Row) (h : alignerAlign P C ref qry peaks rev it = .ok row) :
     ∀ s ∈ row.segments, s.items = [] ∨
       ∃ peak ∈ peaks, ∃ it', s.peak = peak ∧ s.items <:+: peakPositions P ref qry rev it' peak :=
-  Coma.Proofs.alignerAlign_accounted P C hP ref qry peaks rev it hr hq row h
+  Coma.Proofs.alignerAlign_accounted_weak P C hP ref qry peaks rev it hr hq row h
 
 /-- a pair's offset is query − (reference − seed peak) and never exceeds maxPairDistance -/
 theorem C04_offset (P : Params) (ref qry : OMap) (rev : Bool) (it peak : Int) (hq : Ascending qry.positions)
